@@ -1,0 +1,700 @@
+//! C11 adapter: the real `NotificationProtocol` + `NotificationHandle` behind the line protocol.
+//!
+//! The adapter plays the transport (it injects `InnerTransportEvent`s into the real
+//! `TransportService` and answers the `open_substream` requests it observes on the connection
+//! command channels), the remote peer (in-memory pipes, see `crate::verif::io`) and the user of
+//! the handle. After every operation the protocol event loop and all spawned `Connection` tasks are
+//! polled until nothing is runnable, so a case replays exactly.
+//!
+//! Timers: the protocol's negotiation timers are `futures_timer::Delay`s (real time, 5 s / 10 s),
+//! which never fire within a case. `timer p` makes one fire for peer `p` by pushing a ready future
+//! into `NotificationProtocol::timers` (the timer future carries nothing but the peer id); a
+//! handshake timeout is indistinguishable from a read error on that substream (`rreset k`).
+
+use super::{
+    handle::NotificationHandle, types::NotificationEvent, Config, ConnectionState, Direction,
+    InboundState, NotificationError, NotificationProtocol, OutboundState, PeerState,
+    ValidationResult,
+};
+use crate::{
+    codec::ProtocolCodec,
+    error::SubstreamError,
+    executor::Executor,
+    protocol::{
+        self, connection::ConnectionHandle, InnerTransportEvent, Permit, ProtocolCommand,
+        SubstreamKeepAlive, TransportService,
+    },
+    substream::Substream,
+    transport::{
+        manager::{SupportedTransport, TransportManager, TransportManagerBuilder},
+        Endpoint,
+    },
+    types::{protocol::ProtocolName, ConnectionId, SubstreamId},
+    verif::{
+        hex,
+        io::{frame, pipe, unframe, PipeCtl},
+        peer, peer_index, unhex, VerifBox,
+    },
+};
+
+use futures::{Future, Stream};
+use multiaddr::Multiaddr;
+use tokio::sync::mpsc::{channel, Receiver, Sender};
+
+use std::{
+    collections::{BTreeMap, HashMap},
+    pin::Pin,
+    sync::{
+        atomic::{AtomicBool, AtomicUsize, Ordering},
+        Arc, Mutex,
+    },
+    task::{Context, Poll, Wake, Waker},
+    time::Duration,
+};
+
+/// Wake flag: a task is polled again only after its waker was invoked.
+pub(crate) struct Flag(AtomicBool);
+
+impl Flag {
+    pub(crate) fn new(v: bool) -> Arc<Self> {
+        Arc::new(Flag(AtomicBool::new(v)))
+    }
+    pub(crate) fn take(&self) -> bool {
+        self.0.swap(false, Ordering::SeqCst)
+    }
+    pub(crate) fn is_set(&self) -> bool {
+        self.0.load(Ordering::SeqCst)
+    }
+}
+
+impl Wake for Flag {
+    fn wake(self: Arc<Self>) {
+        self.0.store(true, Ordering::SeqCst);
+    }
+    fn wake_by_ref(self: &Arc<Self>) {
+        self.0.store(true, Ordering::SeqCst);
+    }
+}
+
+pub(crate) struct Task {
+    fut: Pin<Box<dyn Future<Output = ()> + Send>>,
+    flag: Arc<Flag>,
+}
+
+/// Executor that only collects the futures; the adapter polls them itself.
+#[derive(Default)]
+pub(crate) struct Collect {
+    pub(crate) spawned: Mutex<Vec<Pin<Box<dyn Future<Output = ()> + Send>>>>,
+}
+
+impl Executor for Collect {
+    fn run(&self, future: Pin<Box<dyn Future<Output = ()> + Send>>) {
+        self.spawned.lock().unwrap().push(future);
+    }
+    fn run_with_name(&self, _: &'static str, future: Pin<Box<dyn Future<Output = ()> + Send>>) {
+        self.spawned.lock().unwrap().push(future);
+    }
+}
+
+/// Poll the collected tasks that were woken; returns whether any was polled.
+pub(crate) fn poll_tasks(exec: &Collect, tasks: &mut Vec<Task>) -> bool {
+    for fut in exec.spawned.lock().unwrap().drain(..) {
+        tasks.push(Task {
+            fut,
+            flag: Flag::new(true),
+        });
+    }
+    let mut polled = false;
+    let mut i = 0;
+    while i < tasks.len() {
+        if tasks[i].flag.take() {
+            polled = true;
+            let waker = Waker::from(Arc::clone(&tasks[i].flag));
+            let mut cx = Context::from_waker(&waker);
+            crate::verif::io::IN_TASK.with(|c| c.set(true));
+            let res = tasks[i].fut.as_mut().poll(&mut cx);
+            crate::verif::io::IN_TASK.with(|c| c.set(false));
+            if res.is_ready() {
+                tasks.remove(i);
+                continue;
+            }
+        }
+        i += 1;
+    }
+    polled
+}
+
+struct Conn {
+    id: ConnectionId,
+    generation: usize,
+    _tx: Sender<ProtocolCommand>,
+    rx: Receiver<ProtocolCommand>,
+    /// Drain the command channel after every operation (otherwise it fills up and
+    /// `open_substream` fails).
+    drain: bool,
+}
+
+struct Inner {
+    notif: NotificationProtocol,
+    handle: NotificationHandle,
+    _manager: TransportManager,
+    manager_handle: crate::transport::manager::TransportManagerHandle,
+    tx: Sender<InnerTransportEvent>,
+    exec: Arc<Collect>,
+    tasks: Vec<Task>,
+    conns: HashMap<u64, Conn>,
+    generation: usize,
+    /// outbound substreams requested from the transport, in request order:
+    /// (substream id, peer, connection generation, answered)
+    requested: Vec<(usize, u64, usize, bool)>,
+    /// (control end, peer, inbound?)
+    pipes: Vec<(PipeCtl, u64, bool)>,
+    proto_flag: Arc<Flag>,
+    handle_flag: Arc<Flag>,
+    max_size: usize,
+}
+
+pub struct NotifBox {
+    inner: Option<Inner>,
+    rt: tokio::runtime::Runtime,
+}
+
+const PROTOCOL: &str = "/notif/1";
+
+fn err_word(e: &NotificationError) -> &'static str {
+    match e {
+        NotificationError::Rejected => "rejected",
+        NotificationError::NoConnection => "noconn",
+        NotificationError::ChannelClogged => "clogged",
+        NotificationError::ValidationPending => "valpending",
+        NotificationError::DialFailure => "dialfail",
+        NotificationError::EssentialTaskClosed => "taskclosed",
+    }
+}
+
+fn pidx(p: &crate::PeerId) -> String {
+    peer_index(p).map(|i| i.to_string()).unwrap_or_else(|| "?".into())
+}
+
+fn sid(s: &SubstreamId) -> String {
+    let d: String = format!("{s:?}").chars().filter(|c| c.is_ascii_digit()).collect();
+    format!("s{d}")
+}
+
+impl NotifBox {
+    pub fn new() -> Self {
+        Self {
+            inner: None,
+            rt: tokio::runtime::Builder::new_current_thread()
+                .enable_time()
+                .build()
+                .expect("runtime"),
+        }
+    }
+}
+
+impl Inner {
+    fn new(auto: bool, dial: bool, sync: usize, asyn: usize, max_size: usize) -> Self {
+        let manager = TransportManagerBuilder::new().build();
+        let mut manager_handle = manager.transport_manager_handle();
+        manager_handle.register_transport(SupportedTransport::Tcp);
+        let (service, tx) = TransportService::new(
+            peer(0),
+            ProtocolName::from(PROTOCOL),
+            Vec::new(),
+            Arc::new(AtomicUsize::new(0)),
+            manager.transport_manager_handle(),
+            Duration::from_secs(1_000_000),
+            SubstreamKeepAlive::Yes,
+        );
+        let (config, handle) = Config::new(
+            ProtocolName::from(PROTOCOL),
+            max_size,
+            vec![1, 2, 3, 4],
+            Vec::new(),
+            auto,
+            sync,
+            asyn,
+            dial,
+        );
+        let exec = Arc::new(Collect::default());
+        let notif =
+            NotificationProtocol::new(service, config, Arc::clone(&exec) as Arc<dyn Executor>);
+        Self {
+            notif,
+            handle,
+            _manager: manager,
+            manager_handle,
+            tx,
+            exec,
+            tasks: Vec::new(),
+            conns: HashMap::new(),
+            generation: 0,
+            requested: Vec::new(),
+            pipes: Vec::new(),
+            proto_flag: Flag::new(true),
+            handle_flag: Flag::new(true),
+            max_size,
+        }
+    }
+
+    /// Run the protocol loop and the connection tasks until nothing is runnable; returns the
+    /// transport calls observed on the connection command channels.
+    fn settle(&mut self) -> Vec<String> {
+        let mut rounds = 0;
+        loop {
+            rounds += 1;
+            assert!(rounds < 100_000, "adapter: no quiescence");
+            // protocol event loop: one event per `next_event()`
+            loop {
+                self.proto_flag.take();
+                let waker = Waker::from(Arc::clone(&self.proto_flag));
+                let mut cx = Context::from_waker(&waker);
+                let fut = self.notif.next_event();
+                futures::pin_mut!(fut);
+                match fut.poll(&mut cx) {
+                    Poll::Ready(_) => continue,
+                    Poll::Pending => break,
+                }
+            }
+            let polled = poll_tasks(&self.exec, &mut self.tasks);
+            if !polled && !self.proto_flag.is_set() {
+                break;
+            }
+        }
+        let mut calls = Vec::new();
+        let mut peers: Vec<u64> = self.conns.keys().copied().collect();
+        peers.sort();
+        for p in peers {
+            let conn = self.conns.get_mut(&p).unwrap();
+            if !conn.drain {
+                continue;
+            }
+            while let Ok(cmd) = conn.rx.try_recv() {
+                match cmd {
+                    ProtocolCommand::OpenSubstream { substream_id, .. } => {
+                        let s = sid(&substream_id);
+                        let n: usize = s[1..].parse().unwrap();
+                        self.requested.push((n, p, conn.generation, false));
+                        calls.push(format!("open({p},{s})"));
+                    }
+                    ProtocolCommand::ForceClose => calls.push(format!("fc({p})")),
+                }
+            }
+        }
+        calls
+    }
+
+    fn inject(&mut self, ev: InnerTransportEvent) {
+        self.tx.try_send(ev).expect("transport event channel");
+    }
+
+    fn new_substream(&mut self, p: u64, id: usize, inbound: bool) -> (Substream, usize) {
+        let (end, ctl) = pipe(1 << 20);
+        self.pipes.push((ctl, p, inbound));
+        let k = self.pipes.len() - 1;
+        (
+            Substream::new_verif(
+                peer(p),
+                SubstreamId::from(id),
+                Box::new(end),
+                ProtocolCodec::UnsignedVarint(Some(self.max_size)),
+            ),
+            k,
+        )
+    }
+
+    fn drain_events(&mut self) -> Vec<String> {
+        let mut out = Vec::new();
+        loop {
+            let waker = Waker::from(Arc::clone(&self.handle_flag));
+            let mut cx = Context::from_waker(&waker);
+            match Pin::new(&mut self.handle).poll_next(&mut cx) {
+                Poll::Ready(Some(ev)) => out.push(match ev {
+                    NotificationEvent::ValidateSubstream {
+                        peer, handshake, ..
+                    } => format!("validate({},hs={})", pidx(&peer), hex(&handshake)),
+                    NotificationEvent::NotificationStreamOpened {
+                        peer,
+                        direction,
+                        handshake,
+                        ..
+                    } => format!(
+                        "opened({},{},hs={})",
+                        pidx(&peer),
+                        match direction {
+                            Direction::Inbound => "in",
+                            Direction::Outbound => "out",
+                        },
+                        hex(&handshake)
+                    ),
+                    NotificationEvent::NotificationStreamClosed { peer } =>
+                        format!("closed({})", pidx(&peer)),
+                    NotificationEvent::NotificationStreamOpenFailure { peer, error } =>
+                        format!("fail({},{})", pidx(&peer), err_word(&error)),
+                    NotificationEvent::NotificationReceived { peer, notification } =>
+                        format!("notif({},{})", pidx(&peer), hex(&notification)),
+                }),
+                Poll::Ready(None) => {
+                    out.push("end".into());
+                    break;
+                }
+                Poll::Pending => break,
+            }
+        }
+        out
+    }
+
+    fn state(&self) -> String {
+        let mut peers = BTreeMap::new();
+        for (p, ctx) in &self.notif.peers {
+            let s = match &ctx.state {
+                PeerState::Poisoned => "poisoned".to_string(),
+                PeerState::ValidationPending { state } => format!(
+                    "valpending({})",
+                    match state {
+                        ConnectionState::Open => "open",
+                        ConnectionState::Closed => "closed",
+                    }
+                ),
+                PeerState::Closed { pending_open } => format!(
+                    "closed({})",
+                    pending_open.as_ref().map(sid).unwrap_or_else(|| "-".into())
+                ),
+                PeerState::Dialing => "dialing".into(),
+                PeerState::OutboundInitiated { substream } => format!("outinit({})", sid(substream)),
+                PeerState::Validating {
+                    outbound,
+                    inbound,
+                    direction,
+                    ..
+                } => format!(
+                    "validating(out={},in={},dir={})",
+                    match outbound {
+                        OutboundState::Closed => "closed".to_string(),
+                        OutboundState::OutboundInitiated { substream } =>
+                            format!("init({})", sid(substream)),
+                        OutboundState::Negotiating => "neg".into(),
+                        OutboundState::Open { .. } => "open".into(),
+                    },
+                    match inbound {
+                        InboundState::Closed => "closed",
+                        InboundState::ReadingHandshake => "read",
+                        InboundState::Validating { .. } => "validating",
+                        InboundState::SendingHandshake => "send",
+                        InboundState::Open { .. } => "open",
+                    },
+                    match direction {
+                        Direction::Inbound => "in",
+                        Direction::Outbound => "out",
+                    }
+                ),
+                PeerState::Open { .. } => "open".into(),
+            };
+            peers.insert(pidx(p), s);
+        }
+        let mut pend: Vec<(usize, String)> = self
+            .notif
+            .pending_outbound
+            .iter()
+            .map(|(s, p)| (sid(s)[1..].parse().unwrap(), pidx(p)))
+            .collect();
+        pend.sort();
+        format!(
+            "[{}] pending=[{}] hs={} timers={} validations={} tasks={}",
+            peers.iter().map(|(p, s)| format!("{p}:{s}")).collect::<Vec<_>>().join(" "),
+            pend.iter().map(|(s, p)| format!("s{s}:{p}")).collect::<Vec<_>>().join(","),
+            if self.notif.negotiation.is_empty() { 0 } else { 1 },
+            self.notif.timers.len(),
+            self.notif.pending_validations.len(),
+            self.tasks.len(),
+        )
+    }
+}
+
+fn with_calls(res: &str, calls: Vec<String>) -> String {
+    if calls.is_empty() {
+        res.to_string()
+    } else {
+        format!("{res} {}", calls.join(" "))
+    }
+}
+
+impl VerifBox for NotifBox {
+    fn step(&mut self, line: &str) -> String {
+        let _guard = self.rt.enter();
+        let t: Vec<&str> = line.split_whitespace().collect();
+        let num = |s: &str| s.parse::<usize>().ok();
+        if let ["cfg", rest @ ..] = t.as_slice() {
+            let kv = crate::verif::kv(rest);
+            let g = |k: &str, d: usize| kv.get(k).and_then(|v| v.parse().ok()).unwrap_or(d);
+            self.inner = Some(Inner::new(
+                g("auto", 0) == 1,
+                g("dial", 1) == 1,
+                g("sync", 16),
+                g("async", 4),
+                g("max", 64),
+            ));
+            return "ok".into();
+        }
+        let Some(inner) = self.inner.as_mut() else {
+            return "bad-op".into();
+        };
+        match t.as_slice() {
+            ["known", p] => {
+                let Some(p) = num(p) else { return "bad-op".into() };
+                let pid = peer(p as u64);
+                let addr: Multiaddr = format!("/ip4/10.0.0.{}/tcp/1000", p % 250 + 1)
+                    .parse::<Multiaddr>()
+                    .expect("addr")
+                    .with(multiaddr::Protocol::P2p(pid.into()));
+                inner.manager_handle.add_known_address(&pid, std::iter::once(addr));
+                "ok".into()
+            }
+            ["conn", p, rest @ ..] => {
+                let Some(p) = num(p) else { return "bad-op".into() };
+                let p = p as u64;
+                if inner.conns.contains_key(&p) {
+                    return "ignored".into();
+                }
+                let kv = crate::verif::kv(rest);
+                let cap = kv.get("cap").and_then(|v| v.parse().ok()).unwrap_or(64usize);
+                let drain = kv.get("drain").map(|v| *v != "0").unwrap_or(true);
+                let (ctx, crx) = channel(cap.max(1));
+                inner.generation += 1;
+                let id = ConnectionId::from(inner.generation);
+                inner.conns.insert(
+                    p,
+                    Conn {
+                        id,
+                        generation: inner.generation,
+                        _tx: ctx.clone(),
+                        rx: crx,
+                        drain,
+                    },
+                );
+                inner.inject(InnerTransportEvent::ConnectionEstablished {
+                    peer: peer(p),
+                    connection: id,
+                    endpoint: Endpoint::dialer(Multiaddr::empty(), id),
+                    sender: ConnectionHandle::new(id, ctx),
+                });
+                let calls = inner.settle();
+                with_calls("ok", calls)
+            }
+            ["disc", p] => {
+                let Some(p) = num(p) else { return "bad-op".into() };
+                let p = p as u64;
+                let Some(conn) = inner.conns.remove(&p) else {
+                    return "ignored".into();
+                };
+                inner.inject(InnerTransportEvent::ConnectionClosed {
+                    peer: peer(p),
+                    connection: conn.id,
+                });
+                let calls = inner.settle();
+                with_calls("ok", calls)
+            }
+            ["dialfail", p] => {
+                let Some(p) = num(p) else { return "bad-op".into() };
+                inner.inject(InnerTransportEvent::DialFailure {
+                    peer: peer(p as u64),
+                    addresses: Vec::new(),
+                });
+                let calls = inner.settle();
+                with_calls("ok", calls)
+            }
+            [op @ ("subout" | "subfail"), p, rest @ ..] => {
+                // answer the i-th oldest unanswered request of peer p on its current connection
+                let Some(p) = num(p) else { return "bad-op".into() };
+                let p = p as u64;
+                let i = rest.first().and_then(|x| num(x)).unwrap_or(0);
+                let Some(generation) = inner.conns.get(&p).map(|c| c.generation) else {
+                    return "ignored".into();
+                };
+                let Some(idx) = inner
+                    .requested
+                    .iter()
+                    .enumerate()
+                    .filter(|(_, r)| r.1 == p && r.2 == generation && !r.3)
+                    .map(|(j, _)| j)
+                    .nth(i)
+                else {
+                    return "ignored".into();
+                };
+                inner.requested[idx].3 = true;
+                let s = inner.requested[idx].0;
+                if *op == "subfail" {
+                    inner.inject(InnerTransportEvent::SubstreamOpenFailure {
+                        substream: SubstreamId::from(s),
+                        error: SubstreamError::ConnectionClosed,
+                    });
+                    let calls = inner.settle();
+                    return with_calls(&format!("ok s{s}"), calls);
+                }
+                let conn = inner.conns.get(&p).unwrap();
+                let (id, permit) = (conn.id, Permit::new(conn._tx.clone()));
+                let (substream, k) = inner.new_substream(p, s, false);
+                inner.inject(InnerTransportEvent::SubstreamOpened {
+                    peer: peer(p),
+                    protocol: ProtocolName::from(PROTOCOL),
+                    fallback: None,
+                    direction: protocol::Direction::Outbound(SubstreamId::from(s)),
+                    connection_id: id,
+                    substream,
+                    opening_permit: permit,
+                });
+                let calls = inner.settle();
+                with_calls(&format!("ok s{s} pipe={k}"), calls)
+            }
+            ["subin", p] => {
+                let Some(p) = num(p) else { return "bad-op".into() };
+                let p = p as u64;
+                let Some(conn) = inner.conns.get(&p) else {
+                    return "ignored".into();
+                };
+                let (id, permit) = (conn.id, Permit::new(conn._tx.clone()));
+                let (substream, k) = inner.new_substream(p, 1_000_000 + inner.pipes.len(), true);
+                inner.inject(InnerTransportEvent::SubstreamOpened {
+                    peer: peer(p),
+                    protocol: ProtocolName::from(PROTOCOL),
+                    fallback: None,
+                    direction: protocol::Direction::Inbound,
+                    connection_id: id,
+                    substream,
+                    opening_permit: permit,
+                });
+                let calls = inner.settle();
+                with_calls(&format!("ok pipe={k}"), calls)
+            }
+            [op @ ("hs" | "rclose" | "rreset" | "rread" | "stall" | "release" | "rsend"), p, role, rest @ ..] =>
+            {
+                // act on the newest (age 0), second newest (age 1)... inbound/outbound pipe of peer p
+                let Some(p) = num(p) else { return "bad-op".into() };
+                let inbound = match *role {
+                    "in" => true,
+                    "out" => false,
+                    _ => return "bad-op".into(),
+                };
+                let (age, rest) = match rest.first().and_then(|x| x.strip_prefix("age=")) {
+                    Some(a) => (a.parse::<usize>().unwrap_or(0), &rest[1..]),
+                    None => (0, rest),
+                };
+                let Some(k) = inner
+                    .pipes
+                    .iter()
+                    .enumerate()
+                    .rev()
+                    .filter(|(_, x)| x.1 == p as u64 && x.2 == inbound)
+                    .map(|(k, _)| k)
+                    .nth(age)
+                else {
+                    return "ignored".into();
+                };
+                let ctl = inner.pipes[k].0.clone();
+                let mut res = "ok".to_string();
+                match *op {
+                    "hs" => ctl.remote_write(&frame(&[0xaa, k as u8])),
+                    "rclose" => ctl.remote_close(),
+                    "rreset" => ctl.reset(),
+                    "stall" => ctl.set_stall_close(true),
+                    "release" => ctl.set_stall_close(false),
+                    "rsend" => {
+                        let Some(payload) = rest.first() else { return "bad-op".into() };
+                        ctl.remote_write(&frame(&unhex(payload)));
+                    }
+                    "rread" => {
+                        let bytes = ctl.remote_read_all();
+                        let (frames, used) = unframe(&bytes);
+                        res = format!(
+                            "[{}]{}",
+                            frames.iter().map(|f| hex(f)).collect::<Vec<_>>().join(" "),
+                            if used < bytes.len() {
+                                format!("+{}", bytes.len() - used)
+                            } else {
+                                String::new()
+                            }
+                        );
+                    }
+                    _ => unreachable!(),
+                }
+                let calls = inner.settle();
+                with_calls(&res, calls)
+            }
+            ["timer", p] => {
+                let Some(p) = num(p) else { return "bad-op".into() };
+                let pid = peer(p as u64);
+                inner.notif.timers.push(Box::pin(async move { pid }));
+                let calls = inner.settle();
+                with_calls("ok", calls)
+            }
+            ["open", p] => {
+                let Some(p) = num(p) else { return "bad-op".into() };
+                let res = {
+                    let fut = inner.handle.open_substream(peer(p as u64));
+                    futures::pin_mut!(fut);
+                    let waker = Waker::from(Flag::new(false));
+                    match fut.poll(&mut Context::from_waker(&waker)) {
+                        Poll::Ready(Ok(())) => "ok",
+                        Poll::Ready(Err(_)) => "already",
+                        Poll::Pending => "blocked",
+                    }
+                };
+                let calls = inner.settle();
+                with_calls(res, calls)
+            }
+            ["close", p] => {
+                let Some(p) = num(p) else { return "bad-op".into() };
+                let res = {
+                    let fut = inner.handle.close_substream(peer(p as u64));
+                    futures::pin_mut!(fut);
+                    let waker = Waker::from(Flag::new(false));
+                    match fut.poll(&mut Context::from_waker(&waker)) {
+                        Poll::Ready(()) => "ok",
+                        Poll::Pending => "blocked",
+                    }
+                };
+                let calls = inner.settle();
+                with_calls(res, calls)
+            }
+            [op @ ("accept" | "reject"), p] => {
+                let Some(p) = num(p) else { return "bad-op".into() };
+                inner.handle.send_validation_result(
+                    peer(p as u64),
+                    if *op == "accept" {
+                        ValidationResult::Accept
+                    } else {
+                        ValidationResult::Reject
+                    },
+                );
+                let calls = inner.settle();
+                with_calls("ok", calls)
+            }
+            ["send", p, payload] => {
+                let Some(p) = num(p) else { return "bad-op".into() };
+                let res = match inner.handle.send_sync_notification(peer(p as u64), unhex(payload)) {
+                    Ok(()) => "ok".to_string(),
+                    Err(e) => err_word(&e).to_string(),
+                };
+                let calls = inner.settle();
+                with_calls(&res, calls)
+            }
+            ["events"] => {
+                let mut all = Vec::new();
+                let mut calls = Vec::new();
+                loop {
+                    let evs = inner.drain_events();
+                    let more = !evs.is_empty();
+                    all.extend(evs);
+                    calls.extend(inner.settle());
+                    if !more {
+                        break;
+                    }
+                }
+                with_calls(&format!("[{}]", all.join(" ")), calls)
+            }
+            ["state"] => inner.state(),
+            _ => "bad-op".into(),
+        }
+    }
+}
